@@ -6,6 +6,8 @@ func AllRules() []*Rule {
 	rs = append(rs, lockRules()...)
 	rs = append(rs, errRules()...)
 	rs = append(rs, txnRules()...)
+	rs = append(rs, globRules()...)
+	rs = append(rs, drvRules()...)
 	return rs
 }
 
@@ -50,5 +52,16 @@ func init() {
 	Props["C15"] = PropInfo{
 		Explanation: "HDR: the stream layout of the struct decoded from the header equals fileformat2 §1.3 and, from the accepting paths of parseHeader (path enumeration with literal extraction), the accepted value set of every header field is computed (whole domain for 1- and 2-byte fields) and compared with the spec; fields that do not affect reading must not influence acceptance. RD-TABLE/TXN-1: the header is re-validated at the start of every transaction before any page read; ERR-2: the header error is propagated.",
 		NotDecided:  "Real WAL/UTF-16 files beyond their header bytes (only the header matters to sqlittle).",
+	}
+}
+
+func init() {
+	Props["C19"] = PropInfo{
+		Explanation: "DRV-1..7 decide the producer/consumer protocol of the database/sql driver on SSA: rows are sent only under a blocking select with the cancellable context's Done(), the channel is closed once by the producer's defer after the error was published, Close cancels then waits then reads the error, Next surfaces the stored error or io.EOF and copies positionally, no cancel function is lost, and the driver reads only through sqlittle.DB.SelectDone/Columns with the table and the expanded columns unchanged (LOCK-2, GLOB-3). ERR rules cover error propagation inside the driver.",
+		NotDecided:  "Schedules: that database/sql calls Close, goroutine counts at run time, the second lock window between Columns and SelectDone.",
+	}
+	Props["C20"] = PropInfo{
+		Explanation: "GLOB-1: no package-level variable of the four packages is written after initialisation (stores, element/field stores, map updates, appends, escapes of mutable references, followed through module callees); GLOB-2: no handle type is reachable from a package-level variable's type; GLOB-3: the only goroutine is the driver's producer, whose sharing is ordered by DRV-3/4/5; GLOB-4: per-handle state is written only through the method receiver.",
+		NotDecided:  "Races inside the standard library or mmap; a user sharing one handle; the exported mutable globals being changed by the user at run time.",
 	}
 }
